@@ -9,6 +9,12 @@ import BloomVerif.Lemmas.CrashHistory
 namespace BloomVerif.C15
 open BloomVerif BloomVerif.FSStore BloomVerif.Crash
 
+/-- The side condition `dat b ≠ tmp b` of the theorems below is a fact about string append. -/
+theorem dat_ne_tmp (b : String) : dat b ≠ tmp b := by
+  intro h
+  have h' := congrArg (fun s => s.toList.getLast?) h
+  simp [dat, tmp, String.toList_append] at h'
+
 /-- At every mutation boundary of a flush, after a process crash or a power loss, the pointer's final
     name is absent, an empty reservation (which no scan accepts) or the complete file: a new engine
     sees only complete files. -/
@@ -156,6 +162,22 @@ theorem failed_flush_invisible (c : CFS) (b : String) (chunks : List Bytes) (n :
     recoveredDat r b = none ∨ recoveredDat r b = some [] :=
   failed_flush_aux c b chunks n r hb hf hp
 
+/-- `C15_flush_partial`, `acknowledged_rows_survive` and `failed_flush_invisible` with the side condition on
+    the names discharged. -/
+theorem C15_flush_partial' (c : CFS) (b : String) (chunks : List Bytes) (n : Nat) (r : Recovered) (hf : FreshFor c b)
+    (hp : PowerLoss (run c ((flushOps b chunks).take n)) r ∨ r = processCrash (run c ((flushOps b chunks).take n))) :
+    recoveredDat r b = none ∨ recoveredDat r b = some [] ∨ recoveredDat r b = some chunks.flatten :=
+  C15_flush_partial c b chunks n r (dat_ne_tmp b) hf hp
+
+theorem acknowledged_rows_survive' (c : CFS) (b : String) (chunks : List Bytes) (r : Recovered) (hf : FreshFor c b)
+    (hp : PowerLoss (run c (flushOps b chunks)) r) : recoveredDat r b = some chunks.flatten :=
+  acknowledged_rows_survive c b chunks r (dat_ne_tmp b) hf hp
+
+theorem failed_flush_invisible' (c : CFS) (b : String) (chunks : List Bytes) (n : Nat) (r : Recovered) (hf : FreshFor c b)
+    (hp : PowerLoss (run c ((failedFlushOps b chunks).take n)) r ∨ r = processCrash (run c ((failedFlushOps b chunks).take n))) :
+    recoveredDat r b = none ∨ recoveredDat r b = some [] :=
+  failed_flush_invisible c b chunks n r (dat_ne_tmp b) hf hp
+
 /-- Over whole histories: run any sequence of successful and failed flushes with distinct names from the
     empty directory and stop at ANY filesystem mutation boundary `n`. Every flush that completed before
     that boundary is bound, currently and durably, to its complete fsynced content there … -/
@@ -164,6 +186,24 @@ theorem C15_history_acknowledged_durable (fs : List Flush) (k n : Nat) (f : Flus
     (hmem : f ∈ fs.take k) (hok : f.ok = true) :
     crash_Final f.base f.chunks.flatten (run {} ((historyOps fs).take n)) :=
   history_completed_flushes_durable fs k n f hg hk hn hmem hok
+
+theorem dat_ne_tmp' (a b : String) : dat a ≠ tmp b := by
+  intro h
+  have h' := congrArg (fun s => s.toList.getLast?) h
+  simp [dat, tmp, String.toList_append] at h'
+
+/-- Distinct base names are all the history theorems need: `GoodNames` follows. -/
+theorem goodNames_of_nodup : ∀ fs : List Flush, (fs.map (·.base)).Nodup → GoodNames fs
+  | [], _ => trivial
+  | f :: rest, h => by
+    have hn : f.base ∉ rest.map (·.base) := (List.nodup_cons.mp h).1
+    refine ⟨dat_ne_tmp f.base, ?_, goodNames_of_nodup rest (List.nodup_cons.mp h).2⟩
+    intro g hg
+    have hne : g.base ≠ f.base := fun e => hn (List.mem_map.mpr ⟨g, hg, e⟩)
+    have inj_dat : ∀ a b : String, dat a = dat b → a = b := fun a b h => (String.append_left_inj ".dat").mp h
+    have inj_tmp : ∀ a b : String, tmp a = tmp b → a = b := fun a b h => (String.append_left_inj ".tmp").mp h
+    refine ⟨⟨fun e => hne (inj_dat _ _ e), dat_ne_tmp' _ _, fun e => dat_ne_tmp' _ _ e.symm, fun e => hne (inj_tmp _ _ e)⟩,
+            ⟨fun e => hne (inj_dat _ _ e).symm, dat_ne_tmp' _ _, fun e => dat_ne_tmp' _ _ e.symm, fun e => hne (inj_tmp _ _ e).symm⟩⟩
 
 /-- … hence survives a process crash and every power-loss state at that boundary … -/
 theorem C15_history_survives_crash (fs : List Flush) (k n : Nat) (f : Flush) (r : Recovered)
